@@ -1044,9 +1044,17 @@ class BlockwiseRequest(BaseUnicastRequest, interfaces.Request):
         # block1 as a reference for now, especially because in the
         # only-one-request-block case, that's the original request we must send
         # again and again anyway
-        assembled_response = await cls._complete_by_requesting_block2(
-            protocol, current_block1, blockresponse, log
-        )
+        try:
+            assembled_response = await cls._complete_by_requesting_block2(
+                protocol, current_block1, blockresponse, log
+            )
+        except BaseException:
+            # The operation ends here, and with it the observation the
+            # application sees; the lower observation would otherwise keep
+            # its token alive (and notifications acknowledged) for good.
+            if lower_observation is not None and not lower_observation.cancelled:
+                lower_observation.cancel()
+            raise
 
         response.set_result(assembled_response)
         # finally set the result
